@@ -38,6 +38,9 @@ def plan(tier, seed):
     for j in range(2 if q else 4):
       specs.append({'shard': 'sigs-%s-%d' % (s, j), 'scenario': s,
                     'n': 3 if q else 14, 'weight': 4})
+  for j in range(2 if q else 6):
+    specs.append({'shard': 'sigs-manyissuers-%d' % j,
+                  'scenario': 'manyissuers', 'n': 1, 'weight': 9})
   return specs
 
 
@@ -165,7 +168,22 @@ def _issuer_guess_monitor(ctx):
   def wrapped(guesses, pks, curve):
     res = orig(guesses, pks, curve)
     ctx.count('lattice_guesses_observed', len(guesses))
+    ctx.maxc('max_guesses_in_one_call', len(guesses))
     ctx.count('guesses_accepted', len(set(res.values())))
+    # post-condition of the helper itself: every accepted guess generates the
+    # issuer key of the signature index it is recorded for (OpenSSL oracle)
+    by_order = {gen.model_curve(c).n: c for c in gen.NAMED}
+    cname = by_order.get(int(curve.n))
+    owner = {i: pk for pk, idxs in pks.items() for i in idxs}
+    for idx, dl in res.items():
+      if cname is None or idx not in owner:
+        continue
+      ctx.count('contract:_IssuerDLogs')
+      if not _verify_log(ctx, cname, int(dl), tuple(int(x) for x in owner[idx])):
+        ctx.violation('contract:_IssuerDLogs-log-does-not-match-issuer',
+                      '_IssuerDLogs recorded %x for signature index %d whose '
+                      'issuer key it does not generate (%d guesses)' % (
+                          int(dl), idx, len(guesses)), None)
     return res
   sc._IssuerDLogs = wrapped
   return lambda: setattr(sc, '_IssuerDLogs', orig)
@@ -241,6 +259,12 @@ def _scenario(rng, name):
       dd, pp = sigs.issuer(rng, c)
       add(c, dd, pp, sigs.nonces_uniform(rng, gen.model_curve(c).n,
                                          rng.randint(2, 6)), 'healthy')
+  elif name == 'manyissuers':
+    # enough weak issuers on one curve for several hundred candidate keys in
+    # one call (bounded-size processing of the candidates must keep indices)
+    for _ in range(rng.choice([14, 16, 18])):
+      d, pub = sigs.issuer(rng, c1)
+      add(c1, d, pub, sigs.nonces_msb(rng, n1, 64, 24), 'biased')
   elif name == 'mixedcurves':
     for c in rng.sample(gen.NAMED, 3):
       nn = gen.model_curve(c).n
@@ -270,6 +294,9 @@ def run_sigs(ctx, spec):
       ctx.sample({'scenario': spec['scenario'], 'signatures': len(batch),
                   'tags': sorted({t for _, _, _, t in batch})})
       for name, chk in checks.items():
+        if (spec['scenario'] == 'manyissuers' and
+            name == 'CheckLCGNonceJavaUtilRandom'):
+          continue   # ten minutes on 400 signatures; nothing to find there
         arts = [type(s)() for s, _, _, _ in batch]
         for a, (s, _, _, _) in zip(arts, batch):
           a.CopyFrom(s)
@@ -316,9 +343,12 @@ def finalize(agg, tier):
   c = agg['counters']
   need = ['contract:BatchDL', 'contract:ExtendedBatchDL', 'key_logs_recorded',
           'relations_recorded', 'lattice_guesses_observed', 'guesses_accepted',
-          'sig_logs_recorded', 'logs_verified']
+          'sig_logs_recorded', 'logs_verified', 'contract:_IssuerDLogs']
   inc = ['reach counter %s is zero' % k for k in need if not c.get(k)]
   if 0 < c.get('lattice_guesses_observed', 0) < 500:
     inc.append('only %d lattice guesses observed' %
                c['lattice_guesses_observed'])
+  if c.get('max_guesses_in_one_call', 0) <= 256:
+    inc.append('no call with more than 256 candidate keys (max %d)' %
+               c.get('max_guesses_in_one_call', 0))
   return [], inc
